@@ -189,6 +189,60 @@ pub enum GTok {
     Set(bool, Vec<(char, char)>), // negated?, ranges (single char = (c,c))
 }
 
+/// what a glob text is to the shell-glob subset of C05
+#[derive(Clone, Debug, PartialEq, Eq)]
+pub enum GlobKind {
+    WellFormed(Vec<GTok>),
+    /// an unclosed or empty set, or a run of three or more '*' outside a set
+    Malformed,
+    /// a run of exactly two '*' outside a set: the statement excludes '**'
+    OutsideSubset,
+}
+
+/// classify a glob text token by token (stars inside a bracket set are set members)
+pub fn glob_classify(p: &str) -> GlobKind {
+    let cs: Vec<char> = p.chars().collect();
+    let mut i = 0;
+    while i < cs.len() {
+        match cs[i] {
+            '*' => {
+                let mut j = i;
+                while j < cs.len() && cs[j] == '*' {
+                    j += 1;
+                }
+                match j - i {
+                    1 => {}
+                    2 => return GlobKind::OutsideSubset,
+                    _ => return GlobKind::Malformed,
+                }
+                i = j;
+            }
+            '[' => {
+                let mut j = i + 1;
+                if j < cs.len() && cs[j] == '!' {
+                    j += 1;
+                }
+                let start = j;
+                if j < cs.len() && cs[j] == ']' {
+                    j += 1;
+                }
+                while j < cs.len() && cs[j] != ']' {
+                    j += 1;
+                }
+                if j >= cs.len() || j == start {
+                    return GlobKind::Malformed;
+                }
+                i = j + 1;
+            }
+            _ => i += 1,
+        }
+    }
+    match glob_parse(p) {
+        Some(t) => GlobKind::WellFormed(t),
+        None => GlobKind::Malformed,
+    }
+}
+
 /// parse the shell-glob subset; None = malformed
 pub fn glob_parse(p: &str) -> Option<Vec<GTok>> {
     let cs: Vec<char> = p.chars().collect();
